@@ -395,7 +395,9 @@ COMP_RULE = ("histories on the real composite.Runner with instrumented children 
              "(with a snapshot of state and running children after each) or concurrently on a 0-40 ms grid; in a fifth of the cases a "
              "Stop/cancel is placed at the verif yield point between setConfig and boot of a restart reload. Oracles: Lean statements "
              "Spec.Comp.holdsC09/C10/C11 on the event trace; sequential histories are also replayed on the operation-level model "
-             "CompSeq and every observed state/snapshot/return must agree. Non-trivial = at least one reload or child exit; distinct by "
+             "CompSeq and every observed state/snapshot/return must agree; every trace (sequential or not, hung or not) is replayed "
+             "on the concurrent model CompLts by the trace acceptor (compaccept: set of compatible model states, closure under the "
+             "internal actions of the Run and Reload threads) and must be accepted. Non-trivial = at least one reload or child exit; distinct by "
              "(scenario, trace).")
 for _pid, _thms, _text in [
     ("C09", ["GoSup.Props.C09.c09_conserve", "GoSup.Props.C09.sortNat_perm", "GoSup.Props.C09.unchanged_perm"],
@@ -437,7 +439,8 @@ PROPS["C09"]["level_text"] = (
     "length. That Stop()/Reload() return in the remaining interleavings is checked on traces.")
 PROPS["C09"]["assumptions"] = ["children are mock runnables honouring the Runnable contract in the stated style",
                                "CompLts is validated against the code by the skeleton ties of the composite package and by the "
-                               "composite leg's trace oracle; its atomic steps are the critical sections of runner.go/reload.go"]
+                               "trace acceptor over every history of the composite leg (accepted = a behaviour of the model); its "
+                               "atomic steps are the critical sections of runner.go/reload.go"]
 PROPS["C11"]["lean_modules"].append("GoSup.Props.C09L")
 PROPS["C11"]["theorems"] += ["GoSup.Props.C09L.c11_restart_stops_first", "GoSup.Props.C09L.c09_one_live_generation"]
 PROPS["C11"]["level_text"] += (" Concurrent model CompLts: in every interleaving a restart reload boots the new children only after "
